@@ -84,6 +84,43 @@ Theorem started_exchange : forall dt dr stamp0 timeout redo m,
 Proof. exact started_spec. Qed.
 Print Assumptions started_exchange.
 
+(* ---- the WHOLE LIFETIME of an exchange: constructed at stamp0 with any (timeout, redo) setting
+   (None = class default dt / dr), started with message m, then driven over ANY schedule
+   (the driver -- process after every advance while not done -- is part of the model) ---- *)
+
+(* the lifetime is exactly the arithmetical reading of the schedule [walk]: fail at the first
+   processing stamp >= stamp0 + |T| (if T > 0, checked first); otherwise retransmit m exactly at
+   each processing stamp that is >= (previous retransmission or stamp0) + |R| (if R > 0) *)
+Theorem lifetime_is_schedule_walk : forall dt dr stamp0 timeout redo m sched xf sf log,
+  lifetime dt dr stamp0 timeout redo m sched = (xf, sf, log) ->
+  let T := tof dt timeout in let R := tof dr redo in
+  let W := walk (qadd stamp0 (qabs T)) T R (qabs R) stamp0 stamp0 sched in
+  x_failed xf = fst W /\ x_done xf = fst W /\ log = map (fun s => (s, m)) (snd W).
+Proof. exact lifetime_is_walk. Qed.
+Print Assumptions lifetime_is_schedule_walk.
+
+(* fails exactly when the overall timeout elapses (first): T > 0, advances >= 0 *)
+Theorem lifetime_fails_iff_timeout_first : forall dt dr stamp0 timeout redo m sched xf sf log,
+  Forall (Qle 0) sched -> 0 < tof dt timeout ->
+  lifetime dt dr stamp0 timeout redo m sched = (xf, sf, log) ->
+  (x_failed xf = true <-> sched <> [] /\ stamp0 + tof dt timeout <= stamp0 + qsum sched).
+Proof. exact lifetime_fails_iff. Qed.
+Print Assumptions lifetime_fails_iff_timeout_first.
+
+(* a timeout of zero (or less) never expires, over the whole lifetime *)
+Theorem lifetime_zero_timeout_never_expires : forall dt dr stamp0 timeout redo m sched xf sf log,
+  tof dt timeout <= 0 -> lifetime dt dr stamp0 timeout redo m sched = (xf, sf, log) -> x_failed xf = false.
+Proof. exact lifetime_zero_timeout. Qed.
+Print Assumptions lifetime_zero_timeout_never_expires.
+
+(* retransmissions over the whole lifetime: stamps (counted from stamp0) at least R apart,
+   every one carries the started message *)
+Theorem lifetime_redo_once_per_interval : forall dt dr stamp0 timeout redo m sched xf sf log,
+  0 < tof dr redo -> lifetime dt dr stamp0 timeout redo m sched = (xf, sf, log) ->
+  spaced (tof dr redo) (stamp0 :: map fst log) /\ Forall (fun p => snd p = m) log.
+Proof. exact lifetime_redo. Qed.
+Print Assumptions lifetime_redo_once_per_interval.
+
 (* non-vacuity: timeout 2, redo 1/2, message 7, advances of 1/4: retransmissions at 1/2, 1, 3/2,
    failure at 2 (timeout checked first), nothing afterwards *)
 Example c38_schedule :
@@ -97,4 +134,10 @@ Example c38_zero_timeout :
   let x := started 2 (1#2) 0 (Some 0) (Some 1) 7%Z in
   let '(xf, sf, log) := drive x 0 [1; 1; 1; 100] in
   (x_failed xf, x_done xf, List.length log) = (false, false, 4%nat).
+Proof. vm_compute. reflexivity. Qed.
+
+(* Exchangent defaults (0.5 / 0.1, the latter not a dyadic float): exact in Q *)
+Example c38_exchangent_defaults :
+  let '(xf, sf, log) := lifetime (1#2) (1#10) 0 None None 7%Z [1#20; 1#10; 1#10; 1#10; 1#10; 1#10] in
+  (x_failed xf, map (fun p => Qred (fst p)) log) = (true, [3#20; 1#4; 7#20; 9#20]).
 Proof. vm_compute. reflexivity. Qed.
